@@ -1149,6 +1149,19 @@ impl ASN1Value {
                 *self = ASN1Value::LinkedCharStringValue(t.ty, s.clone());
                 Ok(())
             }
+            // a character string like "1.0" or "12:30" consists of the characters of a time value
+            (ASN1Type::CharacterString(t), ASN1Value::Time(s)) => {
+                *self = ASN1Value::LinkedCharStringValue(t.ty, s.clone());
+                Ok(())
+            }
+            (ASN1Type::CharacterString(t), ASN1Value::LinkedNestedValue { value, .. })
+                if matches![**value, ASN1Value::Time(_)] =>
+            {
+                if let ASN1Value::Time(s) = &**value {
+                    **value = ASN1Value::LinkedCharStringValue(t.ty, s.clone());
+                }
+                Ok(())
+            }
             (ASN1Type::CharacterString(t), ASN1Value::LinkedNestedValue { value, .. })
                 if matches![**value, ASN1Value::String(_)] =>
             {
